@@ -159,6 +159,10 @@ func mkSteps(spec ...string) []step {
 			s.kind, s.method, s.ext, s.ck = kPost, "POST", selOther, selOwn
 		case "no-extractor-value":
 			s.kind, s.method, s.ext, s.ck = kPost, "POST", selEmpty, selOwn
+		case "no-cookie":
+			s.kind, s.method, s.ext, s.ck = kPost, "POST", selOwn, selEmpty
+		case "other-in-cookie":
+			s.kind, s.method, s.ext, s.ck = kPost, "POST", selOwn, selOther
 		case "delete-token-post":
 			s.kind, s.method, s.ext, s.ck = kDel, "POST", selOwn, selOwn
 		case "delete-token-get":
@@ -424,6 +428,25 @@ func corpus(e *ev.Env) {
 			}
 		})
 	}
+	// Explicit Extractor together with a KeyLookup that names ANOTHER source (documented as ignored):
+	// every (extractor, decoy) pair; the double-submit comparison must follow the extractor in effect.
+	e.Corpus("explicit-extractor-decoy-keylookup", func(c *ev.Case) {
+		for _, ex := range []string{"header", "form", "query", "param", "cookie"} {
+			for _, decoy := range decoysFor(ex, "csrf_") {
+				for _, be := range []string{bVstore, bSessStore} {
+					for _, su := range []bool{false, true} {
+						cfg := fixedCfg(be, ex, su)
+						cfg.keyLookup, cfg.decoy = false, decoy
+						hs := &histSpec{cfg: cfg, nClients: 2, steps: mkSteps("fetch:0", "fetch:1", "other-in-extractor:1",
+							"no-cookie:1", "other-in-cookie:1", "own:1", "no-cookie:0", "own:0", "other-full:1")}
+						_, nt := runHistory(e, c, hs, nil, "")
+						noteHistory(e, hs, nt)
+						e.Stat("decoy_keylookup_configs", 1)
+					}
+				}
+			}
+		}
+	})
 	// https + "Origin: null" falls back to the Referer, which must still be judged.
 	e.Corpus("null-origin-cross-referer", func(c *ev.Case) {
 		cfg := originCorpusCfg(smTLS, "example.com")
